@@ -35,6 +35,9 @@ type ScalarCase struct {
 	Decoy string `json:"decoy,omitempty"`
 	// the argument is handed over through a pointer (*T for Var, *map / *[]map for Map, *string for Url, **struct for Struct)
 	ViaPtr bool `json:"viaptr,omitempty"`
+	// tag carrier: the struct holding the field sits this many levels below the validated
+	// object (each level: a pointer field In marked required)
+	Nest int `json:"nest,omitempty"`
 	noDup bool
 }
 
@@ -103,6 +106,9 @@ func (c *ScalarCase) path() string {
 	case "var":
 		return ""
 	case "tag", "rm":
+		if c.Carrier == "tag" && c.nested() {
+			return strings.Repeat(".In", c.Nest) + ".K"
+		}
 		return "K"
 	case "map", "mapiface":
 		return "map[" + scalarKey + "]"
@@ -140,6 +146,14 @@ func (c *ScalarCase) prepare() func() error {
 		st := desc.T{K: "struct", Fields: []desc.F{{Name: "K", T: c.T, Tags: map[string]string{"valid": rules}}}}
 		sv := reflect.New(desc.Type(st))
 		sv.Elem().Field(0).Set(v)
+		if c.nested() {
+			for i := 0; i < c.Nest; i++ {
+				st = desc.T{K: "struct", Fields: []desc.F{{Name: "In", T: desc.Ptr(st), Tags: map[string]string{"valid": "required"}}}}
+				outer := reflect.New(desc.Type(st))
+				outer.Elem().Field(0).Set(sv)
+				sv = outer
+			}
+		}
 		src := c.viaPtr(sv)
 		if len(c.CallFns) > 0 {
 			fns := append([]string(nil), c.CallFns...)
@@ -263,6 +277,9 @@ func (c *ScalarCase) prepare() func() error {
 	}
 	panic("bad carrier " + c.Carrier)
 }
+
+// nested: deep placement applies to plain tag-carried cases only.
+func (c *ScalarCase) nested() bool { return c.Nest > 0 && c.Decoy == "" && len(c.CallFns) == 0 }
 
 // viaPtr returns the value as interface{}, behind one more pointer if the case says so.
 func (c *ScalarCase) viaPtr(v reflect.Value) interface{} {
